@@ -44,6 +44,13 @@ def shards(tier, seed):
 STATE = {"n": 0}
 
 
+class Terminal(io.StringIO):
+    """a text stream that says it is a terminal"""
+
+    def isatty(self):
+        return True
+
+
 class WriteOnly:
     """the least a print() target needs"""
 
@@ -56,7 +63,11 @@ def as_buffer(b, n):
     import array
     import ctypes
 
-    k = n % 11
+    k = n % 13
+    if k == 11:
+        return array.array("b", [x - 256 if x > 127 else x for x in b])  # signed chars, as a char[] in C is on most platforms
+    if k == 12:
+        return (ctypes.c_byte * len(b))(*[x - 256 if x > 127 else x for x in b]) if len(b) else b
     if k == 6:
         return bytes(b)
     if k == 7:
@@ -103,7 +114,8 @@ def check(ctx, mod, ref, buf, want_text=True, sample=False):
     for pd in (False, True):
         mutable = as_buffer(bytearray(buf), STATE["n"])
         STATE["n"] += 1
-        ctx.add("buffer_types", "ctypes array" if type(mutable).__name__.startswith("c_ubyte_Array") else type(mutable).__name__)
+        ctx.add("buffer_types", "ctypes array" if type(mutable).__name__.startswith("c_ubyte_Array") else "ctypes signed array" if type(mutable).__name__.startswith("c_byte_Array")
+                else "array('%s')" % mutable.typecode if type(mutable).__name__ == "array" else type(mutable).__name__)
         try:
             by_keyword = STATE["n"] % 3 == 0
             if by_keyword:
@@ -117,13 +129,13 @@ def check(ctx, mod, ref, buf, want_text=True, sample=False):
             return
         ctx.count("constructed")
         # a transport may reuse its sense buffer: what the condition reports is what the buffer held when it was raised
-        if isinstance(mutable, (bytearray, list)) or type(mutable).__name__.startswith("c_ubyte_Array"):
+        if isinstance(mutable, (bytearray, list)) or type(mutable).__name__.startswith(("c_ubyte_Array", "c_byte_Array")):
             for i in range(len(mutable)):
                 mutable[i] = 0
         text = None
         try:
             # standard output as programs have it: a text stream, nothing at all (daemons, pythonw), or an object that can only write()
-            sink = (io.StringIO(), io.StringIO(), None, WriteOnly())[STATE["n"] % 4]
+            sink = (io.StringIO(), Terminal(), None, WriteOnly(), io.StringIO())[STATE["n"] % 5]
             with contextlib.redirect_stdout(sink):
                 text = str(exc)
                 print(exc)
@@ -168,6 +180,8 @@ def check(ctx, mod, ref, buf, want_text=True, sample=False):
                                  % (how, getattr(dup, "asc", None), getattr(dup, "ascq", None), str(dup)[:60], getattr(exc, "asc", None), getattr(exc, "ascq", None), (text or "")[:60]), wit)
                 except Exception as e:  # noqa: BLE001
                     ctx.fail("C08:%s_raises.%s" % (how, type(e).__name__), "%s of SCSICheckCondition raised %s: %s" % (how, type(e).__name__, e), wit, exc=e)
+        if getattr(exc, "response_code", rc) != rc:
+            ctx.fail("C08:values.response_code_or_valid", "reports response code %r, byte 0 of the sense data says %02Xh" % (getattr(exc, "response_code", None), rc), wit)
         if fmt is None:
             continue
         # values at the SPC positions
@@ -235,6 +249,14 @@ def run_transport(shard, ctx):
             if rc < 0x72:
                 n = max(n, 13 + (j % 2))
             buf = ref.build(rc, rng.getrandbits(1), key, asc, ascq, n, bytes(rng.getrandbits(8) for _ in range(n)), info=j)
+        if j % 5 == 4:
+            # sense data that is not sense data (response codes outside 70h-73h), among them byte patterns that look like a
+            # length-prefixed frame: reported as what it is
+            n = rng.randint(3, 60)
+            buf = bytearray(rng.getrandbits(8) for _ in range(n))
+            buf[0] = rng.choice(ODD_RCS + [0x00, 0x00])
+            buf[1] = rng.choice([n - 2, n - 2, n, 0, buf[1]]) & 0xFF
+            buf = bytes(buf)
         fmt, deferred, rkey, rasc, rascq = ref.parse(buf)
         for t, dev in devs.items():
             sg.log = []
@@ -257,6 +279,8 @@ def run_transport(shard, ctx):
             except Exception as e:  # noqa: BLE001
                 ctx.fail("C08:transport.%s.inspect_raises.%s" % (t, type(e).__name__), "inspecting the CheckCondition raised by %s failed: %s" % (t, e), wit, exc=e)
                 continue
+            if getattr(exc, "response_code", buf[0] & 0x7F) != buf[0] & 0x7F:
+                ctx.fail("C08:transport.%s.response_code" % t, "CheckCondition over %s reports response code %r, the target's sense data starts with %02Xh" % (t, getattr(exc, "response_code", None), buf[0]), wit)
             if fmt is not None and got != (rkey, rasc, rascq):
                 ctx.fail("C08:transport.%s.values.%s" % (t, rcclass(rc)), "%s over %s: reports key/asc/ascq %r, the target returned %r (sense of %d bytes)"
                          % ("CheckCondition", t, got, (rkey, rasc, rascq), len(buf)), wit)
